@@ -456,12 +456,16 @@ func checkHashAlwaysReset(c *Ctx, r *Report) {
 	r.Rule("hash-always-reset", "every function that writes into a hash.Hash resets it on every path before returning", 2)
 	for _, fn := range c.LibFuncs() {
 		writes := false
-		rawInstrs(fn, false, func(in ssa.Instruction) {
+		allInstrs(fn, false, func(in ssa.Instruction) {
 			if cc := asCall(in); cc != nil && cc.IsInvoke() && cc.Method.Name() == "Write" && isHashHash(cc.Value.Type()) {
 				writes = true
 			}
 		})
 		if !writes {
+			continue
+		}
+		// a helper that is spliced into its callers is judged there, with what they do after it
+		if c.onlySpliced(fn) {
 			continue
 		}
 		name := c.FnName(fn)
@@ -473,12 +477,12 @@ func checkHashAlwaysReset(c *Ctx, r *Report) {
 				return
 			}
 			dirty := map[ssa.Value]bool{}
-			for _, in := range p.Instrs() {
-				cc := asCall(in)
+			for _, oc := range p.Occs() {
+				cc := asCall(oc.In)
 				if cc == nil || !cc.IsInvoke() || !isHashHash(cc.Value.Type()) {
 					continue
 				}
-				h := p.Resolve(cc.Value)
+				h := p.ResolveIn(oc.Ctx, cc.Value)
 				switch cc.Method.Name() {
 				case "Write":
 					dirty[h] = true
